@@ -377,6 +377,7 @@ func c12Case(r *ev.Run, sf stackFactory, g *rng.R, caseID string, G int, replyIn
 	}
 	r.Count("delivered_before_close", warm)
 	r.Count("told", told.Load())
+	r.Sample(map[string]any{"case": caseID, "stack": name, "blocked_receivers": G, "reply_in_callback": replyInCallback, "delivered_before_close": warm, "told_by_peers": told.Load(), "traffic_overlapped_close": overlap.Load()})
 }
 
 func trimStacks(s string, n int) string {
